@@ -6,7 +6,7 @@ DST = os.path.join(os.path.dirname(os.path.dirname(os.path.abspath(__file__))), 
 for name in sorted(os.listdir(SRC)):
     d = os.path.join(SRC, name)
     vf = os.path.join(d, "verified.json")
-    if not os.path.exists(vf):
+    if not os.path.exists(vf) or not os.path.exists(os.path.join(d, "meta.json")):
         continue
     v = json.load(open(vf))
     ok = v["patch_applies"] == "ok" and v["baseline"] == "128/128" and v["demo_with_change"] == "fail" and v["demo_without_change"] == "pass"
